@@ -18,48 +18,52 @@ MAX_CALLEE_BLOCKS = 160
 MAX_TOTAL_BLOCKS = 1500
 
 
-def _pl(pl, off):
-    out = [pl[0] + off]
+def _pl(pl, off, alias=None):
+    # alias: callee local -> caller local it is known to be a copy of (the self reference)
+    if alias and pl[0] in alias:
+        out = [alias[pl[0]]]
+    else:
+        out = [pl[0] + off]
     for e in pl[1:]:
         if isinstance(e, list) and e and e[0] == 'i':
-            out.append(['i', e[1] + off])
+            out.append(['i', alias[e[1]] if (alias and e[1] in alias) else e[1] + off])
         else:
             out.append(e)
     return out
 
 
-def _op(op, off):
+def _op(op, off, alias=None):
     if op is None:
         return None
     if op[0] in ('c', 'm'):
-        return [op[0], _pl(op[1], off)]
+        return [op[0], _pl(op[1], off, alias)]
     return op
 
 
-def _rv(rv, off):
+def _rv(rv, off, alias=None):
     r = dict(rv)
     k = r.get('r')
     if 'p' in r:
-        r['p'] = _pl(r['p'], off)
+        r['p'] = _pl(r['p'], off, alias)
     if k == 'agg':
-        r['o'] = [_op(o, off) for o in r.get('o', [])]
+        r['o'] = [_op(o, off, alias) for o in r.get('o', [])]
     elif 'o' in r:
-        r['o'] = _op(r['o'], off)
+        r['o'] = _op(r['o'], off, alias)
     for key in ('a', 'b'):
         if key in r:
-            r[key] = _op(r[key], off)
+            r[key] = _op(r[key], off, alias)
     return r
 
 
-def _stmt(s, off):
+def _stmt(s, off, alias=None):
     s2 = dict(s)
-    s2['lhs'] = _pl(s['lhs'], off)
+    s2['lhs'] = _pl(s['lhs'], off, alias)
     if 'rv' in s2:
-        s2['rv'] = _rv(s2['rv'], off)
+        s2['rv'] = _rv(s2['rv'], off, alias)
     return s2
 
 
-def _term(t, loff, boff):
+def _term(t, loff, boff, alias=None):
     t2 = dict(t)
     k = t['t']
 
@@ -68,12 +72,12 @@ def _term(t, loff, boff):
     if k == 'goto':
         t2['target'] = bb(t['target'])
     elif k == 'switch':
-        t2['discr'] = _op(t['discr'], loff)
+        t2['discr'] = _op(t['discr'], loff, alias)
         t2['targets'] = [[v, bb(b)] for v, b in t['targets']]
         t2['otherwise'] = bb(t['otherwise'])
     elif k == 'call':
-        t2['args'] = [_op(a, loff) for a in t['args']]
-        t2['dest'] = _pl(t['dest'], loff)
+        t2['args'] = [_op(a, loff, alias) for a in t['args']]
+        t2['dest'] = _pl(t['dest'], loff, alias)
         t2['target'] = bb(t['target'])
         t2['unwind'] = bb(t.get('unwind'))
         c = dict(t['callee'])
@@ -83,11 +87,11 @@ def _term(t, loff, boff):
             c['op'] = _op(c['op'], loff)
         t2['callee'] = c
     elif k == 'drop':
-        t2['p'] = _pl(t['p'], loff)
+        t2['p'] = _pl(t['p'], loff, alias)
         t2['target'] = bb(t['target'])
         t2['unwind'] = bb(t.get('unwind'))
     elif k == 'assert':
-        t2['cond'] = _op(t['cond'], loff)
+        t2['cond'] = _op(t['cond'], loff, alias)
         t2['target'] = bb(t['target'])
         t2['unwind'] = bb(t.get('unwind'))
     elif k == 'other':
@@ -191,10 +195,26 @@ def inline_fn(facts, fn, depth=0, stack=(), mode='all'):
         loff = len(locals_)
         boff = len(blocks)
         locals_.extend(copy.deepcopy(hraw['locals']))
-        for n, pl in hraw.get('vars', []):
-            vars_.append([n, _pl(pl, loff)])
         call = blocks[bi]['t']
         at = call.get('at')
+        # the callee's `self` reference is the caller's: write its places directly as (*_1).f so that rules and the
+        # abstract interpreter see one self, not a chain of reborrows
+        alias = None
+        if takes_self(h) and h.locals[1]['ty'].startswith('&') and fn.locals[1]['ty'].startswith('&') and call['args'] \
+                and call['args'][0][0] in ('c', 'm') and len(call['args'][0][1]) == 1:
+            src = call['args'][0][1][0]
+            if src == 1:
+                alias = {1: 1}
+            elif src < len(raw['locals']):
+                d = fn.single_def(src)
+                if d is not None and d[1] != 'T':
+                    rv0 = fn.def_node(d)['rv']
+                    if rv0['r'] == 'ref' and rv0['p'] == [1, '*']:
+                        alias = {1: 1}
+                    elif rv0['r'] == 'use' and rv0['o'][0] in ('c', 'm') and rv0['o'][1] == [1]:
+                        alias = {1: 1}
+        for n, pl in hraw.get('vars', []):
+            vars_.append([n, _pl(pl, loff, alias)])
         # argument passing
         for i, a in enumerate(call['args']):
             blocks[bi]['s'].append({'k': 'assign', 'lhs': [loff + 1 + i], 'rv': {'r': 'use', 'o': a}, 'at': at, 'inl': h.path})
@@ -202,7 +222,7 @@ def inline_fn(facts, fn, depth=0, stack=(), mode='all'):
         dest = call['dest']
         blocks[bi]['t'] = {'t': 'goto', 'target': boff, 'at': at, 'inl_call': h.path}
         for hb in hraw['blocks']:
-            nb = {'cleanup': hb.get('cleanup', False), 's': [_stmt(s, loff) for s in hb['s']], 't': _term(hb['t'], loff, boff)}
+            nb = {'cleanup': hb.get('cleanup', False), 's': [_stmt(s_, loff, alias) for s_ in hb['s']], 't': _term(hb['t'], loff, boff, alias)}
             if hb['t']['t'] == 'return':
                 nb['s'].append({'k': 'assign', 'lhs': dest, 'rv': {'r': 'use', 'o': ['m', [loff]]}, 'at': hb['t'].get('at', at), 'inl': h.path})
                 if cont is None:
